@@ -413,9 +413,35 @@ def coq_props(ctx):
     t = time.time()
     pa_dir = os.path.join(ctx.scratch, "pa")
     os.makedirs(pa_dir, exist_ok=True)
-    r = subprocess.run(["timeout", "900", "coqc", "-R", os.path.join(COQ, "theories"), "Centro",
-                        "-w", "-notation-overridden", "-o", os.path.join(pa_dir, os.path.basename(path)[:-2] + ".vo"), path],
-                       capture_output=True, text=True, cwd=COQ)
+    # The output is a function of the property file and of the compiled files it depends on; make has
+    # just brought Props/<ID>.vo up to date (it is rebuilt whenever a dependency changed), so the
+    # captured output is reused while that .vo and the source text are unchanged.
+    vo = path[:-2] + ".vo"
+    st = os.stat(vo)
+    key = hashlib.sha256((text + "|%d|%d" % (st.st_mtime_ns, st.st_size)).encode()).hexdigest()
+    cpath = os.path.join(stg.CACHE, "pa", ctx.id + ".json")
+    cached = None
+    if os.path.exists(cpath):
+        try:
+            with open(cpath) as f:
+                c = json.load(f)
+            if c.get("key") == key:
+                cached = c["stdout"]
+        except Exception:
+            cached = None
+    class _R:
+        pass
+    if cached is not None:
+        r = _R(); r.returncode = 0; r.stdout = cached; r.stderr = ""
+    else:
+        r = subprocess.run(["timeout", "900", "coqc", "-R", os.path.join(COQ, "theories"), "Centro",
+                            "-w", "-notation-overridden", "-o", os.path.join(pa_dir, os.path.basename(path)[:-2] + ".vo"), path],
+                           capture_output=True, text=True, cwd=COQ)
+        if r.returncode == 0:
+            os.makedirs(os.path.dirname(cpath), exist_ok=True)
+            with open(cpath + ".tmp%d" % os.getpid(), "w") as f:
+                json.dump({"key": key, "stdout": r.stdout}, f)
+            os.replace(cpath + ".tmp%d" % os.getpid(), cpath)
     ctx.timings["print_assumptions"] = round(time.time() - t, 1)
     if r.returncode != 0:
         res["errors"].append("property file failed to compile: " + (r.stderr + r.stdout)[-1200:])
